@@ -12,7 +12,7 @@ CONSTANTS
   Limits = {0}
   RangeSlack <- FullRangeOnly
   InvalidateCacheOnReorg = FALSE
-  SnapshotValidated = TRUE
+  SnapshotConsumedOnLoad = TRUE
   DropReopenedWindow = FALSE
 INIT Init
 NEXT Next
